@@ -1010,6 +1010,8 @@ class Interp:
         ks = k if isinstance(k, tuple) else (k,)
         res = False
         for kk in ks:
+            if res is True:
+                return True  # one alternative of the tuple already matches
             if isinstance(kk, Class):
                 if isinstance(v, Obj):
                     res = res or v.cls.is_subclass_of(kk)
